@@ -115,6 +115,18 @@ def run_schema(S, tier, seed, configs, wd, extra_cfg="", machine="view", shapes_
             res["spec_violations"].append({"msg": mname, "violated": r.violated, "tail": r.raw[-1200:]})
             continue
         vectors += r.records
+    if machine == "visit":
+        # visiting enum values: one small TLC run per schema (EnumVisit.tla)
+        d = os.path.join(sdir, "mc-enumvisit")
+        mc(d, "MC_EnumVisit", "EnumVisit", "EnumsDef == %s\n" % viewgen.enums_tla(S),
+           "CONSTANT Enums <- EnumsDef\nINIT Init\nNEXT Next\nINVARIANT TagIsFunctional\nINVARIANT ValuesDistinct\nACTION_CONSTRAINT EmitEnumAndStop\n")
+        r = tlc("MC_EnumVisit", cwd=d, workers=1, xmx="2g", timeout=600)
+        res["tlc"].append({"msg": "(enums)", "shapes": 0, "distinct": r.distinct, "generated": r.generated,
+                           "exit": r.exit, "wall_s": round(r.wall, 1), "vectors": len(r.records)})
+        if not r.ok:
+            res["spec_violations"].append({"msg": "(enums)", "violated": r.violated, "tail": r.raw[-1200:]})
+        else:
+            vectors += r.records
     vec = os.path.join(sdir, "vectors-%s.ndjson" % machine)
     write_ndjson(vec, vectors)
     res["vectors"] = len(vectors)
